@@ -59,6 +59,67 @@
         std::mem::forget(t);
     }
 
+
+//# ob name=find_start_marker_leftmost fn=compiler::lexer::find_start_marker_memchr kind=bounded bound="all UTF-8 strings of length <= 4 bytes" stmt="find_start_marker_memchr returns the LEFTMOST occurrence of {{ / {% / {# with the right marker kind, the whitespace marker read from the byte after it, and the skip length 2 (+1 with a marker); None iff there is no start marker: everything before the returned offset is plain text"
+    #[kani::proof]
+    #[kani::unwind(7)]
+    fn find_start_marker_leftmost() {
+        let b: [u8; 4] = kani::any();
+        let s = match utf8(&b) { Some(s) => s, None => return };
+        let n = s.len();
+        let r = find_start_marker_memchr(s);
+        // oracle: first i with b[i] == '{' and b[i+1] in "{%#"
+        let mut exp: Option<usize> = None; let mut i = 0;
+        while i + 1 < n { if exp.is_none() && b[i] == b'{' && matches!(b[i + 1], b'{' | b'%' | b'#') { exp = Some(i); } i += 1; }
+        match (r, exp) {
+            (None, None) => {}
+            (Some((off, marker, skip, ws)), Some(e)) => {
+                assert!(off == e);
+                assert!(matches!((b[e + 1], marker), (b'{', StartMarker::Variable) | (b'%', StartMarker::Block) | (b'#', StartMarker::Comment)));
+                let m = if e + 2 < n { Some(b[e + 2]) } else { None };
+                let ews = match m { Some(b'-') => 1usize, Some(b'+') => 2, _ => 0 };
+                let gws = match ws { Whitespace::Remove => 1usize, Whitespace::Preserve => 2, Whitespace::Default => 0 };
+                assert!(gws == ews);
+                assert!(skip == 2 + (if ews != 0 { 1 } else { 0 }));
+            }
+            _ => { assert!(false); }
+        }
+        kani::cover!(exp == Some(1), "marker after one byte of text");
+        kani::cover!(exp.is_none() && n == 4, "no marker");
+    }
+//# ob name=should_lstrip_block_contract fn=compiler::lexer::should_lstrip_block kind=bounded bound="all UTF-8 prefixes of length <= 4 bytes, flag in {false,true}, marker in {Variable, Block, Comment}" stmt="should_lstrip_block holds exactly when lstrip_blocks is on, the tag is a block or comment tag, and only whitespace lies between the tag and the preceding line break (or the start of the source)"
+    #[kani::proof]
+    #[kani::unwind(7)]
+    fn should_lstrip_block_contract() {
+        let b: [u8; 4] = kani::any();
+        let s = match utf8(&b) { Some(s) => s, None => return };
+        kani::assume(s.is_ascii());
+        let flag: bool = kani::any();
+        let k: u8 = kani::any(); kani::assume(k < 3);
+        let marker = match k { 0 => StartMarker::Variable, 1 => StartMarker::Block, _ => StartMarker::Comment };
+        let r = should_lstrip_block(flag, marker, s);
+        // oracle on ASCII: scan back over blanks
+        let n = s.len(); let mut i = n; let mut at_start = true;
+        while i > 0 {
+            let c = b[i - 1];
+            if c == b'\n' || c == b'\r' { break; }
+            if !(c == b' ' || c == b'\t' || c == 0x0b || c == 0x0c) { at_start = false; break; }
+            i -= 1;
+        }
+        assert!(r == (flag && k != 0 && at_start));
+        kani::cover!(r && n == 4, "strip");
+        kani::cover!(!r && flag && k != 0, "not at line start");
+    }
+//# ob name=whitespace_from_byte fn=compiler::lexer::Whitespace::from_byte kind=complete stmt="'-' means remove, '+' means preserve, every other byte (or none) means default; len() is 1 exactly for the two markers"
+    #[kani::proof]
+    fn whitespace_from_byte() {
+        let x: Option<u8> = kani::any();
+        let w = Whitespace::from_byte(x);
+        match x { Some(b'-') => { assert!(matches!(w, Whitespace::Remove) && w.len() == 1); } Some(b'+') => { assert!(matches!(w, Whitespace::Preserve) && w.len() == 1); }
+                  _ => { assert!(matches!(w, Whitespace::Default) && w.len() == 0); } }
+        kani::cover!(x == Some(b'+'), "plus");
+    }
+
 //# ob name=whitespace_rules_native role=native_bounded fn=compiler::lexer::{tokenize_root,handle_tail_ws,skip_newline_if_trim_blocks,lstrip_block,should_lstrip_block,handle_raw_tag} kind=bounded bound="templates text-tag-text and text-tag-text-tag-text over 11 text segments (blanks, tabs, LF, CRLF, mixed) x tags {variable, block, comment, raw} with every marker in {none, -, +} on either side x 8 settings of trim_blocks / lstrip_blocks / keep_trailing_newline, compared with an independent model of the rules (about 1.5*10^5 templates); plus custom delimiter sets with the same program" stmt="text outside tags is reproduced byte for byte; the only characters removed are one trailing newline of the template (unless keep_trailing_newline), all whitespace adjacent to a '-' marker, the single newline (LF or CRLF) after a block or comment tag under trim_blocks, and horizontal whitespace between a line start and a block or comment tag under lstrip_blocks, where '+' switches the latter two off for that side; rewriting the tags to other delimiters does not change the render"
     fn whitespace_rules_native() {
         use crate::Environment;
